@@ -68,6 +68,21 @@ fn bulk_case(mode: u8, n: u64, hint: u8, dup_every: u64, kind: u8) -> Result<(u6
             }
             Ok((d.len as u64, a.tree_bins as u64))
         }
+        #[cfg(feature = "bulk")]
+        3 => {
+            // deserialisation is a bulk constructor too: a JSON object with the same keys (and
+            // repeated keys), built into a fresh map by serde's visit_map
+            let text = format!("{{{}}}", items.iter().map(|(k, _, v)| format!("\"{k}\":{v}")).collect::<Vec<_>>().join(","));
+            let map: flurry::HashMap<u64, u64, HB> = serde_json::from_str(&text).map_err(|e| format!("from_str failed: {e}"))?;
+            let g = map.guard();
+            let mut got: Vec<(u64, u64)> = map.iter(&g).map(|(k, v)| (*k, *v)).collect();
+            got.sort();
+            let want: Vec<(u64, u64)> = model.iter().map(|(k, x)| (*k, x.1)).collect();
+            if got != want {
+                return Err(format!("contents after deserialisation differ: {} entries, want {}", got.len(), want.len()));
+            }
+            Ok((map.verif_table_len(&g) as u64, 0))
+        }
         _ => {
             let base = items.into_iter().map(|(k, o, _)| TKey::new(k, o));
             let set: Set = match hint {
@@ -93,8 +108,14 @@ pub fn run_bulk(ctx: &Ctx, out: &mut Outcome) {
     let modes = [UNIFORM, CONSTANT, SAMEBIN, MIXED, IDENTITY];
     let mut idx = 0u64;
     'outer: for &mode in &modes {
-        for kind in 0..3u8 {
+        for kind in 0..4u8 {
+            if kind == 3 && !cfg!(feature = "bulk") {
+                continue;
+            }
             for hint in 0..3u8 {
+                if kind == 3 && hint > 0 {
+                    continue;
+                }
                 for dup in [0u64, 1, 3] {
                     let mut n = 0;
                     while n <= max_n {
@@ -113,7 +134,7 @@ pub fn run_bulk(ctx: &Ctx, out: &mut Outcome) {
                         let r = guarded(|| bulk_case(mode, nn, hint, dup, kind));
                         out.evaluations += 1;
                         out.add("bulk_cases", 1);
-                        let kind_s = ["collect", "extend", "set_from_iter"][kind as usize];
+                        let kind_s = ["collect", "extend", "serde_from_str", "set_from_iter"][if kind == 3 { 2 } else if kind == 2 { 3 } else { kind as usize }];
                         let hint_s = ["exact", "zero", "low"][hint as usize];
                         let case = format!("{kind_s}/{}/hint={hint_s}/dup_every={dup}/n={nn}", mode_name(mode));
                         let fail = match r {
